@@ -87,7 +87,7 @@ func decodeString(f reflect.Type, t reflect.Type, data any) (any, error) {
 	var result any
 	var decoder StringDecoder
 
-	if t.Implements(typeStringDecoder) {
+	if t.Kind() == reflect.Ptr && t.Implements(typeStringDecoder) {
 		result = reflect.New(t.Elem()).Interface()
 		decoder = result.(StringDecoder)
 	} else if reflect.PtrTo(t).Implements(typeStringDecoder) {
